@@ -404,7 +404,9 @@ func confirms(f *symexec.Finding, o replayOutcome) bool {
 	case "PANIC":
 		return o.Outcome == "panic" || o.Outcome == "crash"
 	case "UNWIND":
-		return o.Outcome == "timeout"
+		// non-termination: natively a timeout, or - for unbounded recursion - the Go runtime's
+		// fatal stack overflow, which kills the test process
+		return o.Outcome == "timeout" || (o.Outcome == "crash" && strings.Contains(o.Msg, "stack overflow"))
 	case "SHAREDWRITE":
 		// an engine observation on a path: confirmed when the same inputs take the same
 		// path natively (the write itself is not observable from a test)
